@@ -56,6 +56,7 @@ def run(chk: Check) -> None:
     run_parser_prevents(chk, ix)
     run_registry_lookups_guarded(chk, ix)
     run_instance_asserts_after_subtype(chk, ix)
+    run_format_replacement_lookups(chk, ix)
 
     r1 = chk.rule("R20.1", "every loop that re-queues deferred work has a per-iteration counter compared with a constant bound that exits the loop; type-checker deferral is limited by pass_num < last_pass", floor=7)
     n_loops = 0
@@ -721,3 +722,33 @@ def run_instance_asserts_after_subtype(chk: Check, ix) -> None:
                     r.violation(key, f.loc(a), f"the assertion is reached whenever `{norm(subs[0])[:70]}` holds, and nothing before it excludes {missing}: `case {{'k': v, **rest}}` on a subject of type `T` (bound Mapping[str, int]), `dict[str, int] | Mapping[str, int]` or `P.kwargs` ends in an AssertionError")
     if n < 1:
         raise AnalysisError("no `assert isinstance(X, Instance)` under an is_subtype test found in the checker modules (construct_sequence_child had one)")
+
+
+def run_format_replacement_lookups(chk: Check, ix) -> None:
+    """R20.13: a str.format replacement may be a TempNode, which has no entry in the type map."""
+    r = chk.rule("R20.13", "checkstrformat.StringFormatterChecker represents a replacement taken from `*args` / `**kwargs` by a TempNode that carries its type (get_expr_by_position / get_expr_by_name); such a node is not in the checker's type map, so every `self.chk.lookup_type(repl)` on a replacement expression of a format call is the else-arm of an `isinstance(repl, TempNode)` test (`repl.type if isinstance(repl, TempNode) else self.chk.lookup_type(repl)`): otherwise `'{:c}'.format(*args)` ends in KeyError (INTERNAL ERROR)", floor=2)
+    c = ix.cls("mypy.checkstrformat.StringFormatterChecker")
+    n = 0
+    for name, f in sorted(c.methods.items()):
+        params = {a.arg for a in f.params}
+        if "repl" not in params and not any(isinstance(x, ast.Name) and x.id == "repl" for x in ast.walk(f.node)):
+            continue
+        par = f.module.parents()
+        for call in ast.walk(f.node):
+            if isinstance(call, ast.Call) and call_name(call) == "lookup_type" and call.args and norm(call.args[0]) == "repl":
+                n += 1
+                key = f"StringFormatterChecker.{name}: lookup_type(repl) only for a replacement that is not a TempNode"
+                p = par.get(call)
+                ok = False
+                while p is not None and p is not f.node:
+                    if isinstance(p, ast.IfExp) and "isinstance(repl, TempNode)" in norm(p.test) and any(x is call for x in ast.walk(p.orelse)):
+                        ok = True
+                    if isinstance(p, ast.If) and "isinstance(repl, TempNode)" in norm(p.test) and any(x is call for s in p.orelse for x in ast.walk(s)):
+                        ok = True
+                    p = par.get(p)
+                if ok:
+                    r.ok(key, f.loc(call))
+                else:
+                    r.violation(key, f.loc(call), "the type map is asked for `repl` whatever it is: for a replacement that comes from `*args` / `**kwargs` it is a TempNode and lookup_type raises KeyError")
+    if n < 2:
+        raise AnalysisError(f"checkstrformat: {n} lookup_type(repl) sites found (expected 2)")
